@@ -91,3 +91,12 @@ func init() {
 		Rule: flowRule + "budgets 2..5, waits 10..50 ms and 1 h on the fake clock, all failure sequences, single nodes and batch items (sequential and concurrent); one third of the runs cancel at an off-grid instant strictly inside a 1 h retry wait; timestamps are exact simulated times; non-trivial = at least three callback invocations",
 		Must: []string{"cancel_landed_in_wait", "retry_attempt"}}
 }
+
+func init() {
+	props["C10"] = &propCfg{Parts: []part{{Engine: "flowsim", Quick: 40000, Thorough: 1000000}},
+		Rule: flowRule + "hierarchical flows of depth 2..4 (inner flows ending by an unconnected action, a nil connection or an error; inner flows targeted from several places); refinement against the flattened interpretation of the model, store identity at every callback, store contents, and - where the hierarchy flattens without cloning - the real flattened flyt.Flow replayed under the same schedule with identical event log; non-trivial = at least two node visits",
+		Must: []string{"flattened_twin_compared", "node_revisited"}}
+	props["C11"] = &propCfg{Parts: []part{{Engine: "flowsim", Quick: 40000, Thorough: 1000000}},
+		Rule: flowRule + "batches of up to 16 items, concurrency 0..4, both error modes, waits 0 / 10 ms / 1 h, cancelled before the run, synchronously inside the exec of a chosen item/attempt, or by a canceller task whose instant the scheduler decides; non-trivial = at least three callback invocations and at least one fault fired",
+		Must: []string{"items_in_flight_together"}}
+}
